@@ -18,10 +18,11 @@ def check_C17(tier, seed):
     out = Outcome("C17", tier, seed)
     depth = 4 if tier == "quick" else 5
     ndrv = 2 if tier == "quick" else 3
-    models = [Model("MC_StockObject.tla", {"MCVariant": "invalidating", "Depth": depth, "NDrivers": ndrv, "Emit": True},
+    nprm = 2 if tier == "quick" else 3
+    models = [Model("MC_StockObject.tla", {"MCVariant": "invalidating", "Depth": depth, "NDrivers": ndrv, "NPrms": nprm, "Emit": True},
                     invariants=["Prop_C17", "Prop_C17_Table", "EmitInv"], properties=["Prop_C17_Idem"], workers=4,
                     label=f"MC_StockObject/invalidating/depth{depth}"),
-              Model("MC_StockObject.tla", {"MCVariant": "contract", "Depth": depth, "NDrivers": ndrv, "Emit": False},
+              Model("MC_StockObject.tla", {"MCVariant": "contract", "Depth": depth, "NDrivers": ndrv, "NPrms": nprm, "Emit": False},
                     invariants=["Prop_C17", "Prop_C17_Table"], properties=["Prop_C17_Idem"], workers=2,
                     label=f"MC_StockObject/contract/depth{depth}", expect_vectors=False)]
     vectors = []
@@ -29,7 +30,7 @@ def check_C17(tier, seed):
         out.add_tlc(m, res)
         vectors += res.vectors
     # non-vacuity: the algorithm that keeps the cache across set_prms must violate Prop_C17 in the model
-    cfg = tlcrun.cfg_text(constants={"MCVariant": "stale", "Depth": depth, "NDrivers": ndrv, "Emit": False}, invariants=["Prop_C17"])
+    cfg = tlcrun.cfg_text(constants={"MCVariant": "stale", "Depth": depth, "NDrivers": ndrv, "NPrms": nprm, "Emit": False}, invariants=["Prop_C17"])
     stale = tlcrun.run_tlc("MC_StockObject.tla", cfg, workers=2)
     if stale.violation is None:
         raise Machinery("Prop_C17 holds on the stale-cache variant of the model: the property is vacuous")
